@@ -209,19 +209,35 @@ def run(ctx):
     # --- three ways of locating each library, in fresh processes (run in parallel)
     reloc = os.path.join(ctx.scratch, 'elsewhere', 'relocated_data')
     shutil.copytree(pkg_data, reloc)
+    # a copy of the package WITHOUT its bundled data: the override alone must locate the libraries
+    nodata = os.path.join(ctx.scratch, 'nodata_pkg')
+    shutil.copytree(os.path.dirname(pgradd.__file__), os.path.join(nodata, 'pgradd'),
+                    ignore=lambda d, fs: [f for f in fs if (os.path.basename(d) == 'pgradd' and f == 'data') or f == '__pycache__'])
     procs = {
         'name': fresh_load(ctx, 'name', '', names),
         'path': fresh_load(ctx, 'path', pkg_data, names),
         'reloc': fresh_load(ctx, 'reloc', '', names, {'pgradd_DATA_DIR': reloc}),
+        # an empty override is "not set": the bundled directory is used
+        'empty': fresh_load(ctx, 'name', '', names, {'pgradd_DATA_DIR': ''}),
+        'reloc-nodata': fresh_load(ctx, 'reloc', '', names, {'pgradd_DATA_DIR': reloc,
+                                   'PYTHONPATH': nodata + os.pathsep + os.environ.get('PYTHONPATH', '')}),
     }
     dumps = {}
     for way, p in procs.items():
         out, err = p.communicate(timeout=max(60, ctx.time_left()))
         if p.returncode != 0:
-            raise common.MachineryError('fresh-process load (%s) crashed: %s' % (way, err[-800:]))
+            if way in ('name', 'path'):
+                raise common.MachineryError('fresh-process load (%s) crashed: %s' % (way, err[-800:]))
+            # the process could not even resolve the data directory: every library fails to load this way
+            last = (err.strip().split('\n') or ['?'])[-1][:200]
+            dumps[way] = {'data_dir': None, 'libs': {nm: {'error': last} for nm in names}}
+            continue
         dumps[way] = json.loads(out)
-    if os.path.realpath(dumps['reloc']['data_dir']) != os.path.realpath(reloc):
-        ctx.violation('the data-directory override is not honoured', {'pgradd_DATA_DIR': reloc}, reloc, dumps['reloc']['data_dir'])
+    for w in ('reloc', 'reloc-nodata'):
+        if dumps[w]['data_dir'] is not None and os.path.realpath(dumps[w]['data_dir']) != os.path.realpath(reloc):
+            ctx.violation('the data-directory override is not honoured', {'pgradd_DATA_DIR': reloc, 'way': w}, reloc, dumps[w]['data_dir'])
+    if dumps['empty']['data_dir'] is not None and os.path.realpath(dumps['empty']['data_dir']) != os.path.realpath(pkg_data):
+        ctx.violation('an empty data-directory override is not treated as unset', {'pgradd_DATA_DIR': ''}, pkg_data, dumps['empty']['data_dir'])
     model_reqs = []
     for nm in names:
         per = {w: dumps[w]['libs'][nm] for w in dumps}
@@ -233,8 +249,8 @@ def run(ctx):
         if any('error' in d for d in per.values()):
             continue
         strip = lambda d: {k: v for k, v in d.items() if k != 'path'}
-        if not (strip(per['name']) == strip(per['path']) == strip(per['reloc'])):
-            diff = [k for k in per['name'] if k != 'path' and not (per['name'][k] == per['path'][k] == per['reloc'][k])]
+        if not all(strip(per[w]) == strip(per['name']) for w in per):
+            diff = [k for k in per['name'] if k != 'path' and not all(per[w][k] == per['name'][k] for w in per)]
             ctx.violation('library contents depend on how the library is located', {'library': nm, 'differing': diff},
                           'identical contents', None)
         # path resolution: implementation (observed lib.path) vs model
